@@ -35,6 +35,8 @@ def parseO (tok : String) : Option (Option OOp × Option Nat) :=   -- (state cha
   | ["set", i, v] => do pure (some (.setValue (← i.toNat?) (← v.toInt?)), none)
   | ["cp", i, j] => do pure (some (.copy (← i.toNat?) (← j.toNat?)), none)
   | ["cpc", i, j] => do pure (some (.copy (← i.toNat?) (← j.toNat?)), none)
+  | ["cpk", i, j] => do pure (some (.copy (← i.toNat?) (← j.toNat?)), none)   -- rebuilt in place by copy construction
+  | ["mvk", i, j] => do pure (some (.copy (← i.toNat?) (← j.toNat?)), none)   -- … by move construction from a copy
   | ["clr", i] => do pure (some (.clear (← i.toNat?)), none)
   | ["rd", i] => do pure (none, some (← i.toNat?))
   | _ => none
